@@ -98,6 +98,115 @@ func canonical(r *ev.Run) {
 	}
 }
 
+// ---- directed family: operators that wait across an epoch change ------------------------------------
+//
+// AddWaitingOperator with a batch of 2-4 operators for different regions starts one and leaves the
+// others in the waiting queue. While they wait the region of one of them changes (conf change or
+// version bump, or nothing as a control) and pd learns the new epoch. Then a promotion is triggered in
+// each possible way: explicit PromoteWaitingOperator, another AddWaitingOperator, the running operator
+// finishing, the running operator going stale, the running operator being removed. The ordinary
+// monitor judges everything (an operator that enters the running set is checked against the region's
+// epoch at that moment); the family only makes sure these histories occur whatever the seed.
+func directedWaiting(r *ev.Run) {
+	triggers := []string{"promote", "add-waiting", "finish", "stale", "remove"}
+	changes := []string{"conf", "version", "none"}
+	n := 0
+	for size := 2; size <= 4; size++ {
+		for _, same := range []bool{true, false} {
+			for _, change := range changes {
+				for _, trig := range triggers {
+					n++
+					directedWaitingCase(r, n, size, same, change, trig)
+				}
+			}
+		}
+	}
+}
+
+func directedWaitingCase(r *ev.Run, n, size int, same bool, change, trig string) {
+	rng := rand.New(rand.NewSource(int64(7000 + n))) // independent of the run's seed
+	layouts := []string{"1v* 2v 3v", "2v* 3v 4v", "3v* 4v 5v", "4v* 5v 6v", "1v* 3v 5v", "2v* 4v 6v"}
+	w, err := newWorld(r, rng, -n, modeJoint, 6, 6, layouts)
+	if err != nil {
+		r.Inconclusive("directed waiting case: %v", err)
+		return
+	}
+	defer w.close()
+	w.phase = "directed-waiting"
+	r.Count("directed_waiting_cases", 1)
+	var gs []*reg
+	for i := 0; i < size; i++ {
+		gs = append(gs, w.regs[w.rids[i]])
+	}
+	wants := []string{"add-peer", "transfer", "add-peer", "remove-peer"}
+	w.evNo++
+	ts := w.submitBatch(gs, same, wants)
+	var run *opTrack
+	var waiting []*opTrack
+	for _, t := range ts {
+		switch {
+		case w.running[t.g.id] == t:
+			run = t
+		case t.waiting && t.last == operator.CREATED:
+			waiting = append(waiting, t)
+		}
+	}
+	if run == nil || len(waiting) == 0 {
+		r.Count("directed_waiting_nothing_left_waiting", 1)
+		return
+	}
+	victim := waiting[0]
+	w.evNo++
+	switch change {
+	case "conf":
+		if _, err := w.foreignConf(victim.g, "add-learner"); err != nil {
+			r.Count("directed_waiting_change_refused", 1)
+			return
+		}
+		w.putView(victim.g)
+	case "version":
+		w.foreignVersion(victim.g, false)
+		w.putView(victim.g)
+	}
+	if change != "none" {
+		victim.g.logf("#%d region cache updated to %s (no dispatch yet)", w.evNo, epochStr(victim.g.view.GetRegionEpoch()))
+	}
+	w.evNo++
+	switch trig {
+	case "promote":
+		w.promote()
+	case "add-waiting":
+		w.submit(w.regs[w.rids[5]], w.regs[w.rids[5]].view, false, false, true, "add-peer")
+	case "finish":
+		for i := 0; i < 12 && !run.done; i++ {
+			for len(run.g.inbox) > 0 {
+				_ = w.exec(run.g, 0, true)
+			}
+			w.evNo++
+			w.heartbeat(run.g)
+		}
+	case "stale":
+		if _, err := w.foreignConf(run.g, "add-learner"); err == nil {
+			w.heartbeat(run.g)
+		}
+	case "remove":
+		rr := run
+		w.call(&callInfo{name: "RemoveOperator", g: run.g}, func() {
+			if w.oc.RemoveOperator(rr.op) {
+				rr.removedBy = "RemoveOperator"
+			}
+		})
+		w.promote()
+	}
+	// drain the queue: every waiting operator gets its turn
+	for i := 0; i < 8 && len(w.oc.GetWaitingOperators()) > 0; i++ {
+		w.evNo++
+		w.promote()
+	}
+	r.Count("directed_waiting_"+change+"_"+trig, 1)
+	w.settle()
+}
+
 // ---- own steps only -----------------------------------------------------------------------------------------
 
 // ownOnly: each generated operator is executed to completion with nothing else touching its region.
@@ -204,7 +313,19 @@ func (w *world) randomLoop(events int) {
 			w    int
 		}
 		cs := []choice{{"heartbeat", 14}, {"foreign-conf", 5}, {"foreign-leader", 3}, {"foreign-version", 2},
-			{"push-operators", 2}, {"promote", 2}, {"add-waiting", 4}, {"status", 1}}
+			{"push-operators", 2}, {"promote", 3}, {"add-waiting", 4}, {"add-waiting-batch", 4}, {"status", 1}}
+		var waitingRegs []*reg
+		for _, o := range regs {
+			for _, t := range o.ops {
+				if t.waiting && t.last == operator.CREATED {
+					waitingRegs = append(waitingRegs, o)
+					break
+				}
+			}
+		}
+		if len(waitingRegs) > 0 {
+			cs = append(cs, choice{"epoch-change-under-waiting", 5})
+		}
 		if hasRun {
 			cs = append(cs, choice{"add", 3}, choice{"add-admin", 2}, choice{"remove", 2}, choice{"dispatch-push", 12}, choice{"dispatch-again", 3})
 		} else {
@@ -241,6 +362,39 @@ func (w *world) randomLoop(events int) {
 				continue
 			}
 			w.submit(g, view, stale, name == "add-admin" || (name == "add-waiting" && rng.Intn(6) == 0), name == "add-waiting", "")
+		case "add-waiting-batch":
+			// one AddWaitingOperator call with operators for 2-4 regions: one is promoted, the rest wait
+			var free []*reg
+			for _, o := range regs {
+				if w.running[o.id] == nil && o.view != nil {
+					free = append(free, o)
+				}
+			}
+			if len(free) < 2 {
+				free = regs
+			}
+			rng.Shuffle(len(free), func(i, j int) { free[i], free[j] = free[j], free[i] })
+			n := 2 + rng.Intn(3)
+			if n > len(free) {
+				n = len(free)
+			}
+			if n >= 2 {
+				w.submitBatch(free[:n], rng.Intn(2) == 0, nil)
+			}
+		case "epoch-change-under-waiting":
+			// the region of a waiting operator changes behind its back and pd learns the new epoch
+			o := waitingRegs[rng.Intn(len(waitingRegs))]
+			if rng.Intn(3) == 0 {
+				w.foreignVersion(o, false)
+			} else if _, err := w.foreignConf(o, []string{"add-learner", "remove-follower", "promote"}[rng.Intn(3)]); err != nil {
+				w.foreignVersion(o, false)
+			}
+			if rng.Intn(4) != 0 {
+				w.putView(o)
+				o.logf("#%d region cache updated to %s (no dispatch yet)", w.evNo, epochStr(o.view.GetRegionEpoch()))
+			} else {
+				w.heartbeat(o)
+			}
 		case "remove":
 			w.remove(g)
 		case "heartbeat":
@@ -361,7 +515,7 @@ func main() {
 	rng := rand.New(rand.NewSource(seed))
 	rand.Seed(seed) // pd's waiting-operator buckets draw from the global source
 
-	r.Rule("worlds of 4-7 stores and 3-6 adjacent regions (feature modes joint consensus / demotion without joint consensus / legacy); operators from the real builder and constructors over random targets (add/remove/promote/demote/move/transfer, demotion-only joint changes, light peers, leave-joint, split, merge pairs; normal and admin priority; built from pd's current or a superseded view); phase 1 executes each operator with its own steps only; phase 2 is a PRNG loop over {AddOperator, AddWaitingOperator, PromoteWaitingOperator, admin operator (replace), RemoveOperator, store executes / duplicates / loses a pending command, region-cache update, Dispatch(heartbeat), Dispatch(active push), PushOperators, foreign conf change with fresh peer ids (add learner, remove follower, promote, demote), foreign version bump / split, foreign leader change incl. onto the peer about to be removed}; phase 3 issues the same calls from 8 goroutines over 4 regions. evaluations = operators that were admitted and observed until they ended; distinct = distinct (mode, step-kind sequence, end status, kinds of foreign change, ended-by) tuples")
+	r.Rule("directed family: AddWaitingOperator batches of 2-4 operators over different regions (same / different descriptions) x {foreign conf change, version bump, nothing} on the region of an operator that is left waiting x promotion triggered by {PromoteWaitingOperator, another AddWaitingOperator, the running operator finishing, going stale, being removed}; then worlds of 4-7 stores and 3-6 adjacent regions (feature modes joint consensus / demotion without joint consensus / legacy); operators from the real builder and constructors over random targets (add/remove/promote/demote/move/transfer, demotion-only joint changes, light peers, leave-joint, split, merge pairs; normal and admin priority; built from pd's current or a superseded view); phase 1 executes each operator with its own steps only; phase 2 is a PRNG loop over {AddOperator, AddWaitingOperator, PromoteWaitingOperator, admin operator (replace), RemoveOperator, store executes / duplicates / loses a pending command, region-cache update, Dispatch(heartbeat), Dispatch(active push), PushOperators, foreign conf change with fresh peer ids (add learner, remove follower, promote, demote), foreign version bump / split, foreign leader change incl. onto the peer about to be removed}; phase 3 issues the same calls from 8 goroutines over 4 regions. evaluations = operators that were admitted and observed until they ended; distinct = distinct (mode, step-kind sequence, end status, kinds of foreign change, ended-by) tuples")
 	r.Assume("pkg/mock/mockcluster is the opt.Cluster, lib/sim is the store (conf change v1/v2, refuses stale epochs, commands not addressed to the leader, simple changes in a joint state); all stores are up and store limits are unlimited (wall-clock token buckets)")
 	r.Assume("'the region's epoch / leader at send or admission time' is the region as pd's cache holds it during the call; Dispatch is always given the cached region (monotone views)")
 	r.Assume("own_applied = conf_ver units the simulator applied while executing commands that were sent for the operator; a foreign change that touches a peer (store, peer id) named by one of the operator's steps, or removes the peer of a store the operator removes from, cannot be told apart from the operator's own progress by pd: such operators are not judged for staleness (skipped_ambiguous_staleness); commands that cannot be attributed with certainty taint the operators of the region the same way")
@@ -374,6 +528,7 @@ func main() {
 		}
 	}()
 	canonical(r)
+	directedWaiting(r)
 
 	worlds := r.Pick(450, 1400)
 	events := r.Pick(560, 700)
